@@ -162,11 +162,15 @@ def _isnum(x):
     return isinstance(x, int)
 
 
+def _falsy(x):
+    return not x
+
+
 def _boom(x):
     raise ValueError('boom')
 
 
-PRED_FN = {'yes': _yes, 'no': _no, 'zero': _zero, 'truthy': _truthy, 'isnum': _isnum, 'boom': _boom}
+PRED_FN = {'yes': _yes, 'no': _no, 'zero': _zero, 'truthy': _truthy, 'isnum': _isnum, 'falsy': _falsy, 'boom': _boom}
 
 
 class Ctx:
@@ -229,17 +233,12 @@ def mkspec(p, ctx):
             acc = kids[0]
             for k in kids[1:]:
                 acc = f(acc, k)
-            if not isinstance(acc, And if op == 'and' else Or):
-                raise vlib.MachineryError('operator form of %s did not build the combinator: %r' % (op, p))
-            return acc
+            return acc           # whatever the library's operators build is what gets evaluated
         return (And if op == 'and' else Or)(*kids, **_default(p))
     if op == 'not':
         kid = mkspec(p['c'][0], ctx)
         if p['form'] == 'op':
-            r = ~kid
-            if not isinstance(r, Not):
-                raise vlib.MachineryError('operator form of not did not build Not: %r' % (p,))
-            return r
+            return ~kid          # whatever the library's operator builds is what gets evaluated
         return Not(kid)
     if op == 'switch':
         return Switch([(mkspec(k, ctx), mkspec(v, ctx)) for k, v in p['cases']], **_default(p))
@@ -282,6 +281,20 @@ def mkspec(p, ctx):
     if op == 'required':
         return Required(mkspec(p['key'], ctx))
     raise vlib.MachineryError('unknown pattern op %r' % (op,))
+
+
+def build(p, ctx, wrap=None):
+    """(spec object, None) or (None, observation) when the *library* refuses to construct a spec
+    the law gives a meaning to: that is an observation about the library (reported as a
+    disagreement), never a machinery failure.  Errors of the harness itself stay MachineryErrors."""
+    try:
+        s = mkspec(p, ctx)
+        return (wrap(s) if wrap else s), None
+    except vlib.MachineryError:
+        raise
+    except Exception as e:
+        return None, {'ok': False, 'cls': 'construction:' + type(e).__name__, 'is_match': False, 'is_typematch': False,
+                      'is_type': isinstance(e, TypeError), 'is_glom': False, 'is_check': False, 'site': 'construction'}
 
 
 # ---- observation ---------------------------------------------------------------------------
